@@ -343,3 +343,110 @@ def cut_history(ctx):
     key = "zero-iteration-suppressed|repeat-node-and-position-seen-before" if std else "zero-iteration-suppressed|other-discipline"
     _rec(d, key, False, "the zero-iteration alternative of a greedy repeat with min == 0 is suppressed when %s: an alternative with a possibly different continuation is dropped, e.g. '^(?:(a)|(.))(?:bc|d)*\\1$' does not match 'a'" % sorted(guarded), b.loc())
     return _emit(d)
+
+
+# ------------------------------------------------------------------ captured groups when iterations are taken back
+
+GF_MI = "<op_greedy_fixed::GreedyFixed as %s>::matches_iter" % OC
+GR_NEXT = "<op_repeat::GreedyRepeatIterator as std::iter::Iterator>::next"
+
+
+def _restorers(ctx):
+    """ReMatcher methods that put a saved group state back: they take a parameter whose type holds a CaptureState
+    (or a saved-groups record) and are state mutators."""
+    out = set()
+    from ..facts import strip_lt
+    for b in ctx.f.bodies:
+        if b.impl_adt != "re_matcher::ReMatcher" or b.kind == "Closure":
+            continue
+        tys = [strip_lt(b.locals[i]["ty"]) for i in range(2, b.argc + 1)]
+        if any(("CaptureState" in t or "SavedGroups" in t) for t in tys) and b.path in ctx.mutators():
+            out.add(b.path)
+    return out
+
+
+def _restores_after(ctx, p, idx, restorers):
+    """Does path p call a restorer (directly or through local callees) after effect index idx?"""
+    for e in p.effects[idx + 1:]:
+        if e[0] != "call":
+            continue
+        full = e[4] if len(e) > 4 else None
+        name = full or e[1]
+        for r in restorers:
+            if name == r or r.endswith("::" + e[1].split("::")[-1]) and e[1].split("::")[-1] == r.split("::")[-1]:
+                return True
+    return False
+
+
+@rule("CAPTURE-RESTORE", ["C03", "C19", "C01"], floor=3)
+def capture_restore(ctx):
+    """When a repeat delivers fewer iterations than it has matched, or an attempted iteration fails, the captured
+    groups (and the spans seen by back-references) must again be those of the iterations that remain on the match
+    path: the operator has to put a saved group state back.  Checked per event: GreedyFixed stepping back from the
+    furthest iteration, GreedyRepeatIterator popping an exhausted iteration, a failed iteration attempt in the
+    greedy repeat's priming/extension loops.  An operator whose repeated term cannot capture may skip this."""
+    d = {}
+    restorers = _restorers(ctx)
+    _rec(d, "restorers-known", bool(restorers), "no ReMatcher method that puts a saved group state back was found (reset_state renamed?)", None)
+    short = {r.split("::")[-1] for r in restorers}
+
+    def restores(p, after=-1):
+        return any(e[0] == "call" and e[1].split("::")[-1] in short for e in p.effects[after + 1:])
+
+    def cond_capturing(gs):
+        return any(("capturing" in g or "contains_capturing_expressions" in g or "states" in g or "groups" in g) for g in gs)
+
+    # 1. GreedyFixed: the iterator handed out must restore when it steps back
+    gb = ctx.body(GF_MI)
+    if gb is None:
+        _rec(d, "GreedyFixed|missing", False, "GreedyFixed::matches_iter missing", None)
+    else:
+        okk = True
+        why = ""
+        seen = 0
+        for p in ctx.walk(gb, max_visits=1).paths:
+            if p.end != "return":
+                continue
+            r = strip_ver(render(p.ret))
+            if r == "empty()":
+                continue
+            gs = [strip_ver(g) for g in summarize(p)[0]]
+            seen += 1
+            closures = re.findall(r"closure (<[^\[]*?\{closure#\d+\})", r)
+            reach = False
+            for c in closures:
+                full = [b.path for b in ctx.f.bodies if b.path.endswith(c.split(" as ")[-1].split(">::")[-1]) and "{closure" in b.path and "greedy_fixed" in b.path]
+                for fp in full:
+                    if ctx.cg.reaches(fp, lambda x: x in restorers):
+                        reach = True
+            if not reach and not (cond_capturing(gs) and any(g.startswith("!") for g in gs if "captur" in g)):
+                okk = False
+                why = r[:120]
+        _rec(d, "GreedyFixed|fewer-iterations-delivered-restores-groups", okk and seen > 0, "GreedyFixed hands out a plain position iterator (%s): when it steps back from the furthest iteration the groups captured by the iterations taken back stay in place, e.g. '(a)*a' on 'aa' reports $1 = '' instead of 'a' and '^(a)*ab\\1$' does not match 'aaba'" % why, gb.loc())
+    # 2./3. greedy variable-length repeat
+    for path, label in ((GR_NEXT, "GreedyRepeatIterator"), (REP_MI, "Repeat")):
+        b = ctx.body(path)
+        if b is None:
+            _rec(d, label + "|missing", False, path + " missing", None)
+            continue
+        pop_ok, pop_seen, fail_ok, fail_seen = True, 0, True, 0
+        for p in ctx.walk(b, max_visits=1).paths:
+            gs = [strip_ver(g) for g in summarize(p)[0]]
+            for i, e in enumerate(p.effects):
+                if e[0] == "call" and e[1] == "Vec::pop" and strip_ver(render(e[2][0])) == "a1.iterators":
+                    pop_seen += 1
+                    if not restores(p, i) and not cond_capturing(gs):
+                        pop_ok = False
+            # a failed iteration attempt: next(matches_iter(..)) = None on this path
+            fails = [g for g in gs if g.startswith("variant(next(") and "matches_iter(" in g and g.endswith("=None")]
+            if fails:
+                fail_seen += 1
+                # index of the failing next call
+                idxs = [i for i, e in enumerate(p.effects) if e[0] == "call" and e[1] == "next" and "matches_iter(" in strip_ver(render(e[2][0]))]
+                if not (idxs and restores(p, idxs[-1])) and not cond_capturing(gs):
+                    fail_ok = False
+        if label == "GreedyRepeatIterator":
+            _rec(d, "GreedyRepeatIterator|iteration-given-up-restores-groups", pop_ok and pop_seen > 0, "GreedyRepeatIterator pops an exhausted iteration without putting the groups of the iteration below it back, e.g. '(a+)*a' on 'aa' reports $1 = '' instead of 'a' and '^(a+)*ab\\1$' does not match 'aaba'", b.loc())
+        if fail_seen:
+            _rec(d, "Repeat|failed-iteration-attempt-restores-groups", fail_ok, "a failed attempt at a further iteration in %s leaves the groups it moved (Capture sets the back-reference start before matching) in place, e.g. '^(a+)*b\\1$' does not match 'aabaa'" % path, b.loc())
+    return _emit(d)
